@@ -6,7 +6,7 @@ import concurrent.futures as cf
 import os, re, subprocess, time
 from . import core
 
-FS = ['C01', 'C02', 'C04', 'C05', 'C12', 'C17']
+FS = ['C01', 'C02', 'C03', 'C04', 'C05', 'C12', 'C17']
 SS = ['C06', 'C07', 'C08', 'C09', 'C10']
 WORLDS = [(cc, o) for cc in ('gcc', 'clang') for o in ('-O0', '-O1', '-O2', '-O3', '-Os')]
 WSRC = ['wrap_generic.c', 'wrap_ser.c', 'wrap_bo.c']
